@@ -8,7 +8,24 @@ TRUSTED_COMMON = [
 
 NOT_APPLICABLE = {}
 
+RT_NOTE = ("bounded stand-in: the property is a postcondition on the real entry point parse(text).rebuild(), evaluated on the "
+           "exhaustive single-gap enumeration of bounded/nixgen.py with tree-sitter leaves as independent oracle; composition of "
+           "the ~6 kLOC layout code is outside the verifier's reach (DESIGN.md 1.2), so nothing here is counted as proved; "
+           "helper obligations that are discharged are reported in coverage.obligations/discharged")
+
+
+def _rt(text):
+    return dict(level="exploration", trusted_base=TRUSTED_COMMON + ["tree-sitter-nix 0.1.0 as tokenizer (trailing comma in formals tolerated)"],
+                technique="contracts on the real code: helper functions by pvc where reached; composition decided by a run-time-checked postcondition on parse().rebuild() over an exhaustively enumerated bounded program space (labelled bounded)",
+                text=text, note=RT_NOTE)
+
+
 PROPS = {
+    "C01": dict(_rt("token sequence of every enumerated program survives the round trip"), bounded="bounded.b_c01"),
+    "C03": dict(_rt("comments of every enumerated program survive once, in order, on the same side of every non-delimiter token"), bounded="bounded.b_c03"),
+    "C06": dict(_rt("rebuilt text of every enumerated program with line-level comments is a fixed point"), bounded="bounded.b_c06"),
+    "C15": dict(_rt("deep snapshot of the tree (incl. Scope.owner, list identities) equal before/after rebuild; repeated rebuild equal"), bounded="bounded.b_c15"),
+    "C18": dict(_rt("lexical scan of every inter-token gap of the rebuilt text"), bounded="bounded.b_c18"),
     "C09": dict(
         level="proof", bounded=None, trusted_base=TRUSTED_COMMON,
         technique="deductive verification (pvc VC generation over the real source + z3/cvc5) of the selector/layer functions",
